@@ -375,6 +375,11 @@ func (x *c09) step(op C09Op) error {
 		return x.appendClient(m, op.Roots)
 	case "free":
 		return x.freeClient(m, resolveIdx(op.Idx, op.OOB, len(m.Roots)))
+	case "renew", "refresh-full", "refresh-partial":
+		// an honest renewal through the scripted renter (no abort, no wrong
+		// signature); the old contract stays in the snapshot, so its roots are
+		// compared by value after every later operation on the renewal
+		return x.fault(m, Fault{Kind: op.Op}, op)
 	case "confirm":
 		// broadcast and mine one of the revisions committed so far (usually an
 		// older one): roots and latest revision must stay what they are
@@ -559,7 +564,9 @@ func genC09(t *rapid.T) C09Case {
 	n := rapid.IntRange(1, maxOps).Draw(t, "nops")
 	for i := 0; i < n; i++ {
 		op := C09Op{C: rapid.IntRange(0, nc-1).Draw(t, "c"), Old: rapid.IntRange(0, 4).Draw(t, "old") == 0}
-		switch k := rapid.IntRange(0, 15).Draw(t, "op"); {
+		switch k := rapid.IntRange(0, 17).Draw(t, "op"); {
+		case k >= 16:
+			op.Op = rapid.SampledFrom([]string{"renew", "refresh-full", "refresh-partial"}).Draw(t, "renewal")
 		case k == 15:
 			op.Op = "confirm"
 			op.Len = rapid.IntRange(0, 7).Draw(t, "which")
@@ -605,7 +612,7 @@ func genC09(t *rapid.T) C09Case {
 	return c
 }
 
-const c09Rule = "sequences of append (stored and unknown roots mixed), free (any positions, any order, duplicates, out of range), sector-roots ranges and faulty exchanges (renter stops/closes/stalls/truncates at a message boundary, or sends a wrong signature; renew / refresh whose finished set the pool rejects) on 1-2 contracts of 0..6 (thorough 0..10) sectors against the real rhp4.Server; after every attempt MetaRoot(host roots) = committed FileMerkleRoot, count x SectorSize = Filesize, failed/abandoned attempts leave the by-value snapshot (revision, roots, balances) unchanged, successes equal the list model and core's ReviseFor*. Non-trivial = a free of >= 2 positions where a replacement comes from a position that is itself freed, or an abort after the host's first response; distinct by hash of the case."
+const c09Rule = "sequences of append (stored and unknown roots mixed), free (any positions, any order, duplicates, out of range), sector-roots ranges, honest renewals / refreshes (the renewed contract stays under observation) and faulty exchanges (renter stops/closes/stalls/truncates at a message boundary, or sends a wrong signature; renew / refresh whose finished set the pool rejects) on 1-2 contracts of 0..6 (thorough 0..10) sectors against the real rhp4.Server; after every attempt MetaRoot(host roots) = committed FileMerkleRoot, count x SectorSize = Filesize, failed/abandoned attempts leave the by-value snapshot (revision, roots, balances) unchanged, successes equal the list model and core's ReviseFor*. Non-trivial = a free of >= 2 positions where a replacement comes from a position that is itself freed, or an abort after the host's first response; distinct by hash of the case."
 
 var c09Assumptions = []string{
 	"host = rhp4.Server over the repository's reference testutil.EphemeralContractor / EphemeralSectorStore on the all-v2 test network, reached through an in-memory buffered stream (net.Conn obligations only)",
